@@ -175,9 +175,8 @@ def dino(prog: Program, rep: Report):
             dones = [a for a in (rem.atoms() if rem is not None else []) if a[0] == "var"]
             good_rem = rem is not None and len(dones) == 1 and rem == Poly.atom(total) - Poly.atom(dones[0])
             acc = dones[0][1] if dones else None
-            incs = [(m, s_) for m in ga.cfg.nodes for s_ in [ga.cfg.nodes[m].ast] if ga.cfg.nodes[m].kind == "stmt"
-                    and isinstance(s_, ast.AugAssign) and _n(s_.target) == acc and isinstance(s_.op, ast.Add)]
-            good_acc = len(incs) == 1 and _n(incs[0][1].value) == dv
+            incs = [(m, e) for m, op, e in ga.updates(acc or "", ops=(ast.Add,))]
+            good_acc = len(incs) == 1 and _n(incs[0][1]) == dv
             ok = good_rem and good_acc
         rep.decide(ok, "G8.dino-budget", gmf, "remaining-budget", "_mask_block(mask, total - done); done += returned count",
                    "_generate_mask does not pass total - done as the remaining budget, or does not add exactly the returned count",
@@ -222,7 +221,7 @@ def dino(prog: Program, rep: Report):
     # delta counts exactly the new patches
     rets = [t for _, t in ma.returns() if t is not None]
     dvar = rets[0][1] if rets and rets[0][0] == "var" else None
-    incs = [m for m, nd in mcfg.nodes.items() if nd.kind == "stmt" and isinstance(nd.ast, ast.AugAssign) and _n(nd.ast.target) == dvar]
+    incs = [m for m, op, e in ma.updates(dvar or "", ops=(ast.Add,))]
     ok = bool(writes) and len(incs) == len(writes) and all(ma.conds_at(i) == ma.conds_at(w) for i, w in zip(sorted(incs), sorted(writes))) \
         and all(any(c[0] == "eq" for c in ma.conds_at(w)) for w in writes)
     rep.decide(ok, "G8.dino-budget", mb, "count-new-patches", "the returned count grows by one exactly where an unmasked patch is set",
@@ -303,8 +302,10 @@ def ijepa(prog: Program, rep: Report):
         rep.analysed_add("functions", f"{st.module.relpath}:{st.qualname}")
         withs = [n for n, nd in sa.cfg.nodes.items() if nd.kind == "with" and any(
             isinstance(y, ast.Attribute) and y.attr == "get_lock" for y in ast.walk(nd.ast.items[0].context_expr))]
-        incs = [n for n, nd in sa.cfg.nodes.items() if nd.kind == "stmt" and isinstance(nd.ast, ast.AugAssign)
-                and isinstance(nd.ast.target, ast.Attribute) and nd.ast.target.attr == "value"]
+        incs = [n for n, nd in sa.cfg.nodes.items() if nd.kind == "stmt" and (
+            (isinstance(nd.ast, ast.AugAssign) and isinstance(nd.ast.target, ast.Attribute) and nd.ast.target.attr == "value") or
+            (isinstance(nd.ast, ast.Assign) and isinstance(nd.ast.targets[0], ast.Attribute) and nd.ast.targets[0].attr == "value"
+             and isinstance(nd.ast.value, ast.BinOp)))]
         reads = [n for n, var, val in sa.stores() if isinstance(val, ast.Attribute) and val.attr == "value"]
         ok = bool(withs) and bool(incs) and bool(reads)
         if ok:
